@@ -96,14 +96,19 @@ def positive(t):
     return t
 
 
+def _neg_count(t):
+    return sum(1 for x in ast.walk(t) if (isinstance(x, ast.UnaryOp) and isinstance(x.op, ast.Not)) or (isinstance(x, ast.Compare) and any(isinstance(o, (ast.NotEq, ast.IsNot, ast.NotIn)) for o in x.ops)))
+
+
 def _is_negative(t):
-    if isinstance(t, ast.UnaryOp) and isinstance(t.op, ast.Not):
-        return True
-    if isinstance(t, ast.Compare) and len(t.ops) == 1 and isinstance(t.ops[0], (ast.NotEq, ast.IsNot, ast.NotIn)):
-        return True
-    if isinstance(t, ast.BoolOp):
-        return all(_is_negative(v) for v in t.values)
-    return False
+    """should a two-branch conditional be written with the negation of this test (branches exchanged)? The form with fewer negations wins; on a tie a conjunction
+    at the top wins over a disjunction (`C if p is None or not d else P` and `P if p is not None and d else C` are one form). Stable: the winner is never flipped back."""
+    t = positive(t)
+    n = negate(t)
+    a, b = _neg_count(t), _neg_count(n)
+    if a != b:
+        return b < a
+    return isinstance(t, ast.BoolOp) and isinstance(t.op, ast.Or)
 
 
 def _terminator(body):
@@ -609,6 +614,7 @@ class Canon:
             body = self._inline_block(f, body)
         body = _Blocks().block(body, "func")
         node.body = body
+        node = _merge_copy_chains(node)
         node = _DefToLambda().visit(node)
         node = _AppendLoops().visit(node)
         node = _Small().visit(node)
@@ -1334,3 +1340,71 @@ def close_paths(fn):
         ast.fix_missing_locations(fn)
     fn._canonical = True
     return fn
+
+
+def _merge_copy_chains(fn):
+    """`b = a; <only b is worked on>; a = b`  ->  work on `a` directly (also `b = <init>; ...; a = b` when `a` does not occur in between and `b` not afterwards).
+    This is what a by-value accumulator looks like after the helper that takes and returns it has been written out at its call site."""
+    changed = True
+    rounds = 0
+    while changed and rounds < 12:
+        changed = False
+        rounds += 1
+        params = {a.arg for a in fn.args.args + fn.args.kwonlyargs + fn.args.posonlyargs}
+        occ = {}
+        for n in ast.walk(fn):
+            if isinstance(n, ast.Name):
+                occ[n.id] = occ.get(n.id, 0) + 1
+        for blk in _blocks_of(fn):
+            for j, st in enumerate(blk):
+                if not (isinstance(st, ast.Assign) and len(st.targets) == 1 and isinstance(st.targets[0], ast.Name) and isinstance(st.value, ast.Name)):
+                    continue
+                a, b = st.targets[0].id, st.value.id
+                if a == b or b in params or b in ("self", "cls"):
+                    continue
+                # every occurrence of b lies in blk[i0:j] (plus this copy)
+                inside = [sum(1 for x in ast.walk(s_) if isinstance(x, ast.Name) and x.id == b) for s_ in blk[:j]]
+                if sum(inside) + 1 != occ.get(b, 0) or not any(inside):
+                    continue
+                i0 = next(i for i, c in enumerate(inside) if c)
+                first = blk[i0]
+                if not (isinstance(first, ast.Assign) and len(first.targets) == 1 and isinstance(first.targets[0], ast.Name) and first.targets[0].id == b):
+                    continue
+                if any(isinstance(x, (ast.FunctionDef, ast.Lambda)) for s_ in blk[i0:j] for x in ast.walk(s_)):
+                    continue
+                # a does not occur in between, except as the value b starts from
+                a_occ = sum(1 for s_ in blk[i0:j] for x in ast.walk(s_) if isinstance(x, ast.Name) and x.id == a)
+                starts_from_a = isinstance(first.value, ast.Name) and first.value.id == a
+                if a_occ != (1 if starts_from_a else 0):
+                    continue
+                ren = _Rename({b: a})
+                new = [ren.visit(s_) for s_ in blk[i0:j]]
+                if starts_from_a:
+                    new = new[1:]
+                blk[i0:j + 1] = new or [ast.Pass()]
+                changed = True
+                break
+            if changed:
+                break
+    ast.fix_missing_locations(fn)
+    return fn
+
+
+def _blocks_of(fn):
+    out = []
+
+    def scan(body):
+        out.append(body)
+        for st in body:
+            if isinstance(st, (ast.FunctionDef, ast.AsyncFunctionDef, ast.ClassDef)):
+                continue
+            for fld in ("body", "orelse", "finalbody"):
+                b = getattr(st, fld, None)
+                if isinstance(b, list) and b and isinstance(b[0], ast.stmt):
+                    scan(b)
+            if isinstance(st, ast.Try):
+                for h in st.handlers:
+                    scan(h.body)
+
+    scan(fn.body)
+    return out
